@@ -134,14 +134,16 @@ pub fn run(ctx: &mut Ctx) {
         "C19" => crate::c19::lane_send(ctx),
         "C11" => {
             let b = ctx.budget_s;
-            ctx.budget_s = b * 0.35;
+            ctx.budget_s = b * 0.3;
             crate::c11::lane_numeric(ctx);
-            ctx.budget_s = b * 0.7;
+            ctx.budget_s = b * 0.6;
             crate::c11::lane_decisions(ctx);
-            ctx.budget_s = b * 0.85;
+            ctx.budget_s = b * 0.8;
             crate::c11::lane_real_chain(ctx);
-            ctx.budget_s = b;
+            ctx.budget_s = b * 0.9;
             crate::c10::lane_admit_headers(ctx);
+            ctx.budget_s = b;
+            crate::c11::lane_boundary(ctx);
         }
         "C12" => {
             let b = ctx.budget_s;
